@@ -4687,7 +4687,7 @@ impl<'a> Tyck<'a> for TyEnvT<su::TermId> {
                         {
                             | ss::Type::Prod(_) => {
                                 let mut expected_item = expected_view;
-                                let (output, annotations): (Vec<_>, Vec<_>) = items
+                                let output = items
                                     .into_iter()
                                     .map(|item| -> ResultKont<_> {
                                         let ss::Prod(item_ty, next_ty) = expected_item
@@ -4705,24 +4705,28 @@ impl<'a> Tyck<'a> for TyEnvT<su::TermId> {
                                     })
                                     .collect::<ResultKont<Vec<_>>>()?
                                     .into_iter()
-                                    .unzip();
+                                    .map(|(item, _)| item)
+                                    .collect::<Vec<_>>();
 
                                 let checked = self.mk(tail).tyck_k(
                                     tycker,
                                     Action::ana_prepared(expected_item.into(), &self.info),
                                 )?;
-                                let (tail, ann) = checked.try_as_value(
+                                let (tail, _) = checked.try_as_value(
                                     tycker,
                                     TyckError::SortMismatch,
                                     std::panic::Location::caller(),
                                 )?;
-                                let vtype = ss::VType.build(tycker, &self.info);
-                                let ann = annotations.into_iter().rev().fold(ann, |ann, head| {
-                                    Alloc::alloc(tycker, ss::Prod(head, ann), vtype, &self.info)
-                                });
-                                let cons =
-                                    Alloc::alloc(tycker, ss::ConsN(output, tail), ann, &self.info);
-                                TermAnnId::Value(cons, ann)
+                                // The tuple has the type it was checked against. Rebuilding a
+                                // product from the component types would give a sealed
+                                // `def P = A * B` away as its representation.
+                                let cons = Alloc::alloc(
+                                    tycker,
+                                    ss::ConsN(output, tail),
+                                    expected,
+                                    &self.info,
+                                );
+                                TermAnnId::Value(cons, expected)
                             }
                             | ss::Type::Exists(_) | ss::Type::ManifestKind(_) => {
                                 let mut body_ty = DeferredTelescopeType::new(expected);
